@@ -202,10 +202,61 @@ def gen_param(rng, tier):
                 c['pad'] = ['border', 'reflection', 'zeros'][(i // 4) % 3]
         c['seed'] = rng.randrange(10 ** 6)
         out.append(c)
+    # gradients w.r.t. the coil sensitivities / the density compensation weights (buffers or parameters of the operator), through forward
+    # and through adjoint (added after round-6 seeded change C05-f1)
+    for i in range(4 if tier == 'quick' else 40):
+        c = opzoo.gen_sens(rng) if i % 2 == 0 else opzoo.gen_dcf(rng)
+        c['via_adjoint'] = i % 4 >= 2
+        c['seed'] = rng.randrange(10 ** 6)
+        out.append(c)
     return out
 
 
+def _impl_param_buffer(c):
+    """d/dp Re<w, A(p) x> (or A(p)^H u) for p = csm / dcf against central finite differences of freshly built operators"""
+    import mrpro.operators as ops
+    g = torch.Generator().manual_seed(c['seed'])
+    op, in_shape = opzoo.build(c)
+    x = _rand(list(in_shape), g, torch.complex128)
+    name = 'csm_tensor' if c['cls'] == 'SensitivityOp' else 'matrix'
+    p0 = getattr(op, name).detach().clone().to(torch.complex128)
+
+    def make(pp):
+        from mrpro.data import CsmData
+        return ops.SensitivityOp(pp) if c['cls'] == 'SensitivityOp' else ops.DensityCompensationOp(pp)
+
+    (y0,) = make(p0)(x)
+    u = _rand(list(y0.shape), g, torch.complex128)
+    w = _rand(list((make(p0).adjoint(u)[0] if c['via_adjoint'] else y0).shape), g, torch.complex128)
+
+    def f(pp):
+        o = make(pp)
+        return o.adjoint(u)[0] if c['via_adjoint'] else o(x)[0]
+    if c['cls'] == 'SensitivityOp':      # the csm is a buffer: the tensor handed in stays part of the graph
+        p = p0.clone().requires_grad_(True)
+        out = f(p)
+    else:                                 # the dcf becomes a torch.nn.Parameter (a new leaf): differentiate w.r.t. that parameter
+        o = make(p0.clone())
+        p = o.matrix.requires_grad_(True)
+        out = o.adjoint(u)[0] if c['via_adjoint'] else o(x)[0]
+    (gp,) = torch.autograd.grad(_loss(out, w), p, allow_unused=True)
+    if gp is None:
+        return {'dev': float('inf'), 'no_grad': True}
+    worst, flat, eps = 0.0, p0.reshape(-1), 1e-6
+    for k in range(min(flat.numel(), 16)):
+        for d in (1.0, 1j):
+            e = torch.zeros_like(flat)
+            e[k] = d
+            fd = (_loss(f((flat + eps * e).reshape(p0.shape)), w).item() - _loss(f((flat - eps * e).reshape(p0.shape)), w).item()) / (2 * eps)
+            an = gp.reshape(-1)[k]
+            an = an.real.item() if d == 1.0 else an.imag.item()
+            worst = max(worst, abs(fd - an) / max(1.0, abs(fd)))
+    return {'dev': worst}
+
+
 def impl_param(c):
+    if c['cls'] in ('SensitivityOp', 'DensityCompensationOp'):
+        return _impl_param_buffer(c)
     g = torch.Generator().manual_seed(c['seed'])
     op, in_shape = opzoo.build(c)
     if c['cls'] == 'GridSamplingOp':
@@ -272,7 +323,7 @@ def oracle_param(c, o):
     if 'raises' in o:
         return f'{c["cls"]}: gradient w.r.t. a parameter raised {o["raises"]}: {o.get("msg")}'
     if o.get('no_grad'):
-        return (f'{c["cls"]}: no gradient reaches the operator parameter (grid){" after the operator had been used without a graph" if c.get("history") else ""}: '
+        return (f'{c["cls"]}: no gradient reaches the operator parameter (grid / csm / dcf / matrix){" after the operator had been used without a graph" if c.get("history") else ""}: '
                 'autograd returned None')
     if o['dev'] > 1e-4:
         return f'{c["cls"]}: autograd gradient w.r.t. the operator parameter differs from finite differences by {o["dev"]:.3g}'
